@@ -4,6 +4,7 @@ CONSTANTS
   EnvVars <- GenEnv
   QueryKinds <- GenQueries
   BlockChoices <- NoBlocks
+  Versions <- GateVersions
   MaxPert = 1000
   EmitAt = 16
   Scenarios = {1}
